@@ -132,4 +132,7 @@ rb!(c06_rb_s3a_delete_left, S3A, 4, [T_, T_, T_], [F_, T_, T_], [T_, F_, F_], fa
 rb!(c06_rb_s3a_insert_mid, S3A, 4, [T_, F_, T_], [T_, T_, T_], [F_, T_, F_], false);
 rb!(c06_rb_s3b_collapse_left, S3B, 4, [T_, T_, T_], [F_, F_, T_], [T_, T_, F_], false);
 rb!(c06_rb_s3c_delete_deep, S3C, 4, [T_, T_, T_], [T_, F_, T_], [F_, T_, T_], false);
+// one terminal batch: preserved leaf + delete of an absent key below it + two puts above it
+rb!(c06_rb_s4a_absent_del_two_puts, S4A, 4, [F_, T_, F_, F_], [F_, T_, T_, T_], [T_, F_, T_, T_], false);
+rb!(c06_rb_s3a_absent_del_put, S3A, 4, [F_, T_, F_], [F_, T_, T_], [T_, F_, T_], false);
 rb!(c06_rb_s4a_mixed, S4A, 4, [T_, F_, T_, T_], [F_, T_, T_, F_], [T_, T_, F_, T_], false);
